@@ -393,7 +393,7 @@ class History:
         rec = self.ctx.rec
         kinds = ["iadd_incompatible", "iadd_other_dim", "iadd_nonhist", "iadd_array", "imul_negative", "imul_hist", "idiv_hist", "isub_more",
                  "fill_n_weight_shape", "fill_n_cols", "set_dtype_invalid", "set_dtype_lossy", "fill_bad_weight", "merge_bad_amount",
-                 "mul_array", "rdiv", "array_after_free_block", "idiv_zero", "normalize_empty_inplace", "fill_weight_square_overflow"]
+                 "mul_array", "rdiv", "array_after_free_block", "idiv_zero", "normalize_empty_inplace", "fill_weight_square_overflow", "isub_more_in_bins_only"]
         if h.ndim >= 2:
             kinds += ["projection_bad", "select_bad", "fill_wrong_dim"]
         else:
@@ -426,6 +426,16 @@ class History:
                     h += np.ones(h.shape)
                 elif k == "mul_array":
                     _ = h * np.ones(h.shape)
+                elif k == "isub_more_in_bins_only":
+                    # the subtrahend holds more in the bins but less missed weight: refused for the bins, the missed weights stay too
+                    ok_ = (h.ndim == 1 and h.keep_missed and not h.is_adaptive() and h.total > 0 and np.dtype(h.dtype).kind == "f"
+                           and float(h.underflow) == float(h.underflow) and float(h.underflow) + float(h.overflow) > 0)
+                    if not ok_:
+                        return
+                    o = h * 3
+                    o.underflow = float(h.underflow) / 2
+                    o.overflow = float(h.overflow) / 2
+                    h -= o
                 elif k == "fill_weight_square_overflow":
                     # a weight that fits the content type while its square does not: refused as a whole or entered as a whole
                     must = False
